@@ -925,12 +925,19 @@ def inherited_elements_marked_unconditionally(repo, rep):
             parent[c] = n
     # the copies of superclass elements, and the loop variables over their
     # qualifiers
-    copies = {n.targets[0].id for n in walk_no_nested(f.node)
-              if isinstance(n, ast.Assign) and len(n.targets) == 1 and
-              isinstance(n.targets[0], ast.Name) and
-              isinstance(n.value, ast.Call) and
-              isinstance(n.value.func, ast.Attribute) and
-              n.value.func.attr in ('copy',) and not n.value.args}
+    copies = set()
+    for lp in walk_no_nested(f.node):
+        if not (isinstance(lp, ast.For) and
+                'superclass' in norm(lp.iter, 80)):
+            continue
+        lvars = {x.id for x in ast.walk(lp.target)
+                 if isinstance(x, ast.Name)}
+        for n in ast.walk(lp):
+            if isinstance(n, ast.Assign) and len(n.targets) == 1 and \
+                    isinstance(n.targets[0], ast.Name) and \
+                    any(isinstance(x, ast.Name) and x.id in lvars
+                        for x in ast.walk(n.value)):
+                copies.add(n.targets[0].id)
     qvars = {n.target.id for n in walk_no_nested(f.node)
              if isinstance(n, ast.For) and isinstance(n.target, ast.Name) and
              any(isinstance(x, ast.Attribute) and x.attr == 'qualifiers' and
